@@ -1,11 +1,44 @@
-/- Oracle operations, group DER (see /verif/CONVENTIONS.md). -/
+/- Oracle operations, group DER (C11; see /verif/CONVENTIONS.md and DESIGN.md appendix A).
+
+   der.dec <hex>                → ok r=<dec> s=<dec> ht=<dec> | err | panic     (Model.DER.decode)
+   der.dec.spec <hex>           → ok | err                                      (Spec.bip66)
+   der.enc <r> <s> <ht>         → ok <hex> | err | panic                        (Model.DER.encode)
+   der.encint <v>               → ok <hex> | err | panic                        (Model.DER.encodeBigInt)
+   der.chk <v>                  → ok | err | panic                              (Model.DER.checkEncodable)
+   `<r>`, `<s>`, `<v>` are decimal integers (a leading `-` for negative ones) or `nil`. -/
 import BtcVerif.Oracle.Util
+import BtcVerif.Model.DER
+import BtcVerif.Spec.BIP66
 
 namespace BtcVerif.Oracle
-open BtcVerif
+open BtcVerif BtcVerif.Model.DER
+
+/-- `nil` | decimal integer with optional sign; outer `none` = unparsable -/
+def derParseBigArg (s : String) : Option (Option Int) :=
+  if s == "nil" then some none
+  else match s.toInt? with
+    | some z => some (some z)
+    | none => none
 
 def opDER (op : String) (args : List String) : Option String :=
   match op, args with
+  | "der.dec", [h] => do
+    let bs ← parseHex h
+    some (outcomeStr (fun g => s!"r={g.r} s={g.s} ht={g.ht}") (decode bs))
+  | "der.dec.spec", [h] => do
+    let bs ← parseHex h
+    some (if Spec.bip66 bs then "ok" else "err")
+  | "der.enc", [r, s, ht] => do
+    let r ← derParseBigArg r
+    let s ← derParseBigArg s
+    let ht ← ht.toNat?
+    some (outcomeStr hexOf (encode r s ht))
+  | "der.encint", [v] => do
+    let v ← derParseBigArg v
+    some (outcomeStr hexOf (encodeBigInt v))
+  | "der.chk", [v] => do
+    let v ← derParseBigArg v
+    some (match checkEncodable v with | .ok _ => "ok" | .err => "err" | .panic => "panic")
   | _, _ => none
 
 end BtcVerif.Oracle
